@@ -144,10 +144,12 @@ PROPS["C14"] = dict(
 )
 
 PROPS["C16"] = dict(
-    modules=["Proofs.C16", "Proofs.Findings.C16", "Proofs.C15Locks"],
+    modules=["Proofs.C16", "Proofs.Findings.C16", "Proofs.C15Locks", "Proofs.C16Multi"],
     theorems=["Goflow.C16.inv_init", "Goflow.C16.inv_step", "Goflow.C16.inv_run", "Goflow.C16.publish_once",
               "Goflow.C16.single_system", "Goflow.C16.nothing_lost", "Goflow.Findings.C16.lost_update_possible",
-              "Goflow.C15Locks.maps_only_grow", "Goflow.C15Locks.lock_discipline", "Goflow.C16.instrumented_store_atomic"],
+              "Goflow.C15Locks.maps_only_grow", "Goflow.C15Locks.lock_discipline", "Goflow.C16.instrumented_store_atomic",
+              "Goflow.C16Multi.nothing_lost_multi", "Goflow.C16Multi.published_stable", "Goflow.C16Multi.single_system_per_key",
+              "Goflow.C16Multi.Findings.cow_stale_loses", "Goflow.C16Multi.Findings.cow_stale_equal_keys"],
     generators=[dict(name="C16", quick=1, thorough=1, subseeds=1)],
     count_all=True,
     harness=["impl"],
@@ -214,10 +216,12 @@ PROPS["C20"] = dict(
 )
 
 PROPS["C15"] = dict(
-    modules=["Proofs.C15", "Proofs.C15Locks"],
+    modules=["Proofs.C15", "Proofs.C15Locks", "Proofs.C15Refresh"],
     theorems=["Goflow.C15.decodeFlow_congr", "Goflow.C15.parallel_eq_sequential", "Goflow.C15.per_datagram_order",
               "Goflow.C15.sflow_readOnly", "Goflow.C15.skeleton_matches",
-              "Goflow.C15Locks.load_guarded", "Goflow.C15Locks.store_guarded", "Goflow.C15Locks.lock_discipline", "Goflow.C15Locks.maps_only_grow"],
+              "Goflow.C15Locks.load_guarded", "Goflow.C15Locks.store_guarded", "Goflow.C15Locks.lock_discipline", "Goflow.C15Locks.maps_only_grow",
+              "Goflow.C15Refresh.decodeFlow_congrL", "Goflow.C15Refresh.refresh_readOnly", "Goflow.C15Refresh.refresh_readOnly_any",
+              "Goflow.C15Refresh.mixed_parallel_eq_sequential", "Goflow.C15Refresh.mixed_per_datagram_order", "Goflow.C15Refresh.addTemplates_same"],
     count_all=True,
     level_text="PARTIAL: theorems take whole DecodeFlow calls as atomic steps and prove that for read-only workloads every processing order yields, per datagram, the messages of processing it alone on the prologue state (multiset equality and per-datagram order); for the four shared maps (pipe templates, producer sampling systems, a template system's templates, a sampling system's rates) a lockset checker runs, kernel-evaluated, over the lock / access / block events regenerated from the source on every run (lock_discipline), and load_guarded / store_guarded prove what its verdict means for every event list; data-race freedom of everything else and interleavings inside one call are explored with the race detector on the real code (2..32 goroutines, shared pipes, templates and rates re-announced while data is cut with them), not proved.",
     generators=[dict(name="C15", quick=6, thorough=200, subseeds=8)],
